@@ -1,0 +1,26 @@
+//go:build verif
+
+package mp4
+
+import "sort"
+
+// Accessors used by the model-based verification harness (build tag verif only).
+
+// VerifRegisteredBoxTypes returns the keys of the io.Reader and the SliceReader decoder tables.
+func VerifRegisteredBoxTypes() (reader, sliceReader []string) {
+	for k := range decoders {
+		reader = append(reader, k)
+	}
+	for k := range decodersSR {
+		sliceReader = append(sliceReader, k)
+	}
+	sort.Strings(reader)
+	sort.Strings(sliceReader)
+	return reader, sliceReader
+}
+
+// VerifTrunWriteOrder returns the write order number of a trun box.
+func VerifTrunWriteOrder(t *TrunBox) uint32 { return t.writeOrderNr }
+
+// VerifFileIsFragmented returns the fragmented state of a File.
+func VerifFileIsFragmented(f *File) bool { return f.isFragmented }
